@@ -88,6 +88,17 @@ def run(ctx):
         n = r.randint(1, ctx.pick(8, 30))
         fc = make_file(fname, r, n, r.choice(["tiny", "normal", "wide"]), style)
         eol = fc["eol"]
+        if case.get("huge") and fname in ("bed6", "vcf"):
+            # one field of more than 65 536 characters (a spelled-out structural variant allele, a very long name)
+            col = 3
+            i_h = r.randrange(n)
+            f_h = fc["raws"][i_h][:-len(eol)].split("\t")
+            f_h[col] = (f_h[col][:1] or "A") * 0 + "".join(r.choice("ACGT") for _ in range(70001))
+            fc["raws"][i_h] = "\t".join(f_h) + eol
+            body = "".join(fc["raws"])
+            if not fc["final_newline"]:
+                body = body[:-len(eol)]
+            fc["body"], fc["data"] = body, (fc["header"] + body).encode("latin1")
         raws = list(fc["raws"])
         if not fc["final_newline"]:
             raws[-1] = raws[-1][:-len(eol)]       # the file ends without a line terminator
@@ -363,7 +374,8 @@ def run(ctx):
     total = ctx.share(ctx.pick(400 * len(fmts), 6000 * len(fmts)))
     for i in range(total):
         fname = fmts[i % len(fmts)]
-        ctx.run_case(one, {"fmt": fname, "seed": rng.randrange(2 ** 40), "eol": "\r\n" if rng.random() < 0.25 else "\n", "final_newline": rng.random() < 0.8, "noncanon": rng.random() < 0.6, "chunked": rng.random() < 0.4})
+        ctx.run_case(one, {"fmt": fname, "seed": rng.randrange(2 ** 40), "eol": "\r\n" if rng.random() < 0.25 else "\n", "final_newline": rng.random() < 0.8, "noncanon": rng.random() < 0.6, "chunked": rng.random() < 0.4,
+                           "huge": fname in ("bed6", "vcf") and rng.random() < 0.04})
     ctx.sample({"format": "bed6", "source": "chr1\t007\t+12\tr0\t05\t+\n...", "program": [["fancy", [2, 2, 0]], ["concat-right", ["slice", None, None, -1]], ["replace", ["score"]]]})
     ctx.floor("judged:write:bed6", ctx.pick(20, 300))
     ctx.floor("judged:write:sam", ctx.pick(20, 300))
